@@ -596,7 +596,7 @@ def run(tier, seed, replay=None):
             share_replay = bool(replay.get("share_config"))
             jobs.append(("replay", replay["history"], replay["final"], replay.get("argv", [])))
         else:
-            n_hist = 150 if tier == "quick" else 1500
+            n_hist = 80 if tier == "quick" else 1500
             for i in range(n_hist):
                 explicit = rng.choice([None, None, None, "gemini", "cursor"])
                 L = rng.choice([1, 2, 5, 33, 40, 100, 400]) if i < 14 else rng.randint(1, 400)
